@@ -5,7 +5,7 @@ import contextlib
 
 from lib import coq_term_str as S, coq_list as L, coq_Z as Z, coq_nat as N
 
-IMPORTS = 'From LV Require Import Pos.PosBase Pos.LexCoords Pos.MetaSpan Pos.PosCheck.'
+IMPORTS = 'From LV Require Import Pos.PosBase Pos.LexCoords Pos.MetaSpan Pos.PosCheck Pos.RawMeta Pos.PosCheck2.'
 
 CONFIGS = [('lalr', 'basic'), ('lalr', 'contextual'), ('earley', 'basic'), ('earley', 'dynamic'),
            ('earley', 'dynamic_complete')]
@@ -65,6 +65,7 @@ class Run:
         self.nlt = set(lexer.newline_types)
         self.matches = []       # (pos, length, type_)
         self.tokens = []        # (pretype, fields)
+        self.events = []        # recover mode: ('tok', pretype, fields) | ('err', pos, line, column), in order
         self.tok_objs = []
         self.code = 2
         self.err = (0, 0, 0)
@@ -83,6 +84,9 @@ class Tracer:
         self.own = {}           # id(tree) -> index of the call that created it
         self.firstpos = {}      # id(tree) -> index of the first call returning it whose rule matched a token
         self.cont = {}          # id(obj) -> (first_token, last_token) true span of the rule(s) that returned obj
+        self.recover = False    # on_error route: a lexer error does not end a run
+        self.copies = {}        # id(copied counter) -> dict(buf, orig, copied, ops): LexerState.__copy__
+        self.pp_raw = []        # attribute-wise record of every PropagatePositions call
 
     @staticmethod
     def state(c):
@@ -95,19 +99,39 @@ class Tracer:
         from lark.exceptions import UnexpectedCharacters
         from lark import Tree, Token
         tr = self
-        LC, BL, PP = LX.LineCounter, LX.BasicLexer, PTB.PropagatePositions
+        LC, BL, PP, LS = LX.LineCounter, LX.BasicLexer, PTB.PropagatePositions, LX.LexerState
         o_feed, o_adv, o_fts = LC.feed, LC.advance_to, LC.__dict__['from_text_slice']
+        o_lscopy = LS.__copy__
+        o_tdc = Tree.__deepcopy__
+
+        def tree_deepcopy(self, memo):
+            # forks deep-copy the value stack: the copy stands for the same rule applications
+            new = o_tdc(self, memo)
+            tr.keep.append(new)
+            for reg in (tr.node_of, tr.own, tr.firstpos, tr.cont):
+                if id(self) in reg:
+                    reg[id(new)] = reg[id(self)]
+            return new
+
+        def ls_copy(self):
+            before = tr.state(self.line_ctr) if self.line_ctr is not None else None
+            new = o_lscopy(self)
+            if before is not None and new.line_ctr is not None and isinstance(self.text, LX.TextSlice):
+                tr.keep.append(new)
+                tr.copies[id(new.line_ctr)] = dict(buf=self.text.text, orig=before, copied=tr.state(new.line_ctr), ops=[],
+                                                   end=self.text.end)
+            return new
         o_match, o_next, o_pp = BL.match, BL.next_token, PP.__call__
 
         def feed(self, token, test_newline=True):
             o_feed(self, token, test_newline)
-            rec = tr.counters.get(id(self))
+            rec = tr.counters.get(id(self)) or tr.copies.get(id(self))
             if rec is not None and not tr.in_fts:
                 rec['ops'].append(('feed', as_text(token), bool(test_newline), tr.state(self)))
 
         def advance_to(self, text, pos):
             o_adv(self, text, pos)
-            rec = tr.counters.get(id(self))
+            rec = tr.counters.get(id(self)) or tr.copies.get(id(self))
             if rec is not None and not tr.in_fts:
                 if text is not rec['buf']:
                     rec['foreign'] = True
@@ -132,7 +156,7 @@ class Tracer:
                 run = tr.cur[-1]
                 if res:
                     run.matches.append((pos, len(res[0]), str(res[1])))
-                else:
+                elif not tr.recover:
                     run.closed = True
             return res
 
@@ -151,7 +175,12 @@ class Tracer:
                     run.closed = True
                 raise
             except UnexpectedCharacters as e:
-                if not was_closed:
+                if tr.recover:
+                    ev = ('err', e.pos_in_stream, e.line, e.column)
+                    # the contextual lexer retries with its root lexer at the same position: one error, not two
+                    if not (run.events and run.events[-1] == ev):
+                        run.events.append(ev)
+                elif not was_closed:
                     run.code = 1
                     run.err = (e.pos_in_stream, e.line, e.column)
                     run.closed = True
@@ -161,6 +190,7 @@ class Tracer:
             if not was_closed:
                 pre = run.matches[-1][2] if run.matches else str(t.type)
                 run.tokens.append((pre, tok_fields(t)))
+                run.events.append(('tok', pre, tok_fields(t)))
                 run.tok_objs.append(t)
             return t
 
@@ -173,10 +203,44 @@ class Tracer:
 
         def pp_call(self, children):
             kids = list(children)
-            spans = [span_of(c) for c in kids if c is not None]
+            flt = self.node_filter
+            keep = [True if flt is None else bool(flt(c)) for c in kids]
+            spans = [span_of(c) for c, k in zip(kids, keep) if c is not None and k]
             spans = [s for s in spans if s is not None]
             true = (spans[0][0], spans[-1][1]) if spans else None
-            res = o_pp(self, children)
+            # attribute-wise record: children as _pp_get_meta classifies them (before the call: the result may be
+            # one of them), the result's meta before (spied on node_builder) and after
+            raw_kids = []
+            for c in kids:
+                if isinstance(c, Tree):
+                    raw_kids.append(('tree', raw_meta(c.meta)))
+                elif isinstance(c, Token):
+                    raw_kids.append(('tok', raw_token(c)))
+                elif hasattr(c, '__lark_meta__'):
+                    m = c.__lark_meta__()
+                    raw_kids.append(('custom', None if m is None else raw_meta(m)))
+                else:
+                    raw_kids.append(('other', None))
+            nb = self.node_builder
+            spy = {}
+
+            def spying(ch):
+                r = nb(ch)
+                if isinstance(r, Tree):
+                    spy['before'] = raw_meta(r.meta)
+                return r
+            self.node_builder = spying
+            try:
+                try:
+                    res = o_pp(self, children)
+                except AttributeError:
+                    if 'before' in spy:
+                        tr.pp_raw.append(dict(kids=raw_kids, keep=keep, before=spy['before'], after=None))
+                    raise
+            finally:
+                self.node_builder = nb
+            if 'before' in spy and isinstance(res, Tree):
+                tr.pp_raw.append(dict(kids=raw_kids, keep=keep, before=spy['before'], after=raw_meta(res.meta)))
             idx = len(tr.pp_calls)
             sel = None
             for k, c in enumerate(kids):
@@ -194,9 +258,13 @@ class Tracer:
                     kid_refs.append(('other', None))
             obs = ('tree', meta_fields(res.meta)) if isinstance(res, Tree) else \
                   ('tok', tok_fields(res)) if isinstance(res, Token) else ('other', None)
-            tr.pp_calls.append(dict(sel=sel, kids=kid_refs, obs=obs, true=true, filtered=self.node_filter is not None))
+            custom = any(k[0] == 'custom' for k in raw_kids)
+            tr.pp_calls.append(dict(sel=sel, kids=kid_refs, obs=obs, true=true, filtered=flt is not None, keep=keep,
+                                    custom=custom))
             tr.keep.append(res)
             tr.keep.append(kids)
+            if res is not None and not isinstance(res, (Tree, Token)) and true is not None:
+                tr.cont[id(res)] = true
             if isinstance(res, (Tree, Token)):
                 tr.node_of[id(res)] = idx
                 if true is not None:
@@ -209,16 +277,34 @@ class Tracer:
 
         LC.feed, LC.advance_to, LC.from_text_slice = feed, advance_to, classmethod(from_text_slice)
         BL.match, BL.next_token, PP.__call__ = match, next_token, pp_call
+        LS.__copy__ = ls_copy
+        Tree.__deepcopy__ = tree_deepcopy
         try:
             yield self
         finally:
             LC.feed, LC.advance_to, LC.from_text_slice = o_feed, o_adv, o_fts
             BL.match, BL.next_token, PP.__call__ = o_match, o_next, o_pp
+            LS.__copy__ = o_lscopy
+            Tree.__deepcopy__ = o_tdc
 
 
 META_ATTRS = ('start_pos', 'line', 'column', 'end_pos', 'end_line', 'end_column',
               'container_start_pos', 'container_line', 'container_column',
               'container_end_pos', 'container_end_line', 'container_end_column')
+
+
+RAW_FIELDS = ('line', 'column', 'start_pos', 'end_line', 'end_column', 'end_pos')
+RAW_ALL = RAW_FIELDS + tuple('container_' + f for f in RAW_FIELDS)
+
+
+def raw_meta(m):
+    """(empty, the twelve position attributes in the order of coq/Pos/RawMeta.field; None = attribute absent)"""
+    return (bool(getattr(m, 'empty', False)),) + tuple(getattr(m, f, None) for f in RAW_ALL)
+
+
+def raw_token(t):
+    """a Token read as a position source: own attributes, no container_* ones"""
+    return (False,) + tuple(getattr(t, f, None) for f in RAW_FIELDS) + (None,) * 6
 
 
 def meta_fields(m):
@@ -236,15 +322,94 @@ def meta_fields(m):
 _LARKS = {}
 
 
+# ---- callable propagate_positions filters (named, so that witnesses stay replayable) ------------------------
+def _flt_no_punct(c):
+    """ignore anonymous punctuation tokens when propagating"""
+    from lark import Token
+    return not (isinstance(c, Token) and c.type in ('LPAR', 'RPAR', 'LSQB', 'RSQB', 'LBRACE', 'RBRACE', 'SEMICOLON',
+                                                     'COMMA', 'EQUAL', 'LESSTHAN', 'MORETHAN', 'PLUS', 'AT', 'BANG'))
+
+
+def _flt_trees_only(c):
+    from lark import Tree
+    return isinstance(c, Tree)
+
+
+def _flt_tokens_only(c):
+    from lark import Token
+    return isinstance(c, Token)
+
+
+def _flt_no_names(c):
+    from lark import Token
+    return not (isinstance(c, Token) and c.type == 'NAME')
+
+
+def _flt_none(c):
+    return False
+
+
+PP_FILTERS = {'no_punct': _flt_no_punct, 'trees_only': _flt_trees_only, 'tokens_only': _flt_tokens_only,
+              'no_names': _flt_no_names, 'nothing': _flt_none, 'everything': lambda c: True}
+
+
+class Boxed:
+    """a transformer result that is neither Tree nor Token but offers positions through __lark_meta__"""
+    def __init__(self, what, meta):
+        self.what, self._m = what, meta
+
+    def __lark_meta__(self):
+        return self._m
+
+
+class BoxedNoMeta(Boxed):
+    """__lark_meta__ answers None: _pp_get_meta stops its search there"""
+    def __lark_meta__(self):
+        return None
+
+
+def _mk_boxing():
+    from lark import Transformer, Tree
+
+    class Boxing(Transformer):
+        """embedded transformer for CUSTOM_GRAMMAR: `num` leaves become Boxed objects whose __lark_meta__ is the NUM
+        token, `paren` becomes a Boxed carrying what its content offers, `nil` a BoxedNoMeta (__lark_meta__ -> None)"""
+        def num(self, ch):
+            return Boxed(('num', str(ch[0])), ch[0])
+
+        def nil(self, ch):
+            return BoxedNoMeta('nil', None)
+
+        def paren(self, ch):
+            inner = ch[0]
+            return Boxed(('paren', inner), inner.meta if isinstance(inner, Tree) else inner.__lark_meta__())
+    return Boxing
+
+
+CUSTOM_GRAMMAR = ('start: item+\nitem: "<" atom ">" | atom atom | atom\n?atom: NUM -> num | "(" item ")" -> paren | "[" "]" -> nil\n'
+                  'NUM: /[0-9]+/\n%ignore /[ \\n]+/\n')
+CUSTOM_TEXTS = ['1', '<1>', '(1)', '[]', '1 []', '[] 1', '<[]>', '<(1)>\n[] 2', '( <1> )\n3', '[] []', '<\n(\n12\n)\n> 7 []',
+                '(1 [])', '([] 1)\n<2>']
+
+TRANSFORMERS = {'boxing': lambda: _mk_boxing()()}
+
+
 def get_lark(grammar, parser, lexer, use_bytes, extra=()):
     from lark import Lark
     key = (grammar, parser, lexer, use_bytes, tuple(extra))
     if key not in _LARKS:
         if len(_LARKS) > 400:
             _LARKS.clear()
-        kw = dict(extra)
+        kw = dict(propagate_positions=True)
+        for k, v in extra:
+            if k == 'pp_filter':
+                kw['propagate_positions'] = PP_FILTERS[v]
+            elif k == 'transformer':
+                kw['transformer'] = TRANSFORMERS[v]()
+            else:
+                kw[k] = v
         try:
-            _LARKS[key] = Lark(grammar, parser=parser, lexer=lexer, use_bytes=use_bytes, propagate_positions=True, **kw)
+            _LARKS[key] = Lark(grammar, parser=parser, lexer=lexer, use_bytes=use_bytes, **kw)
         except Exception as e:     # grammar not supported by this configuration (e.g. LALR conflict, collision)
             _LARKS[key] = e
     return _LARKS[key]
@@ -347,6 +512,38 @@ def run_route(lk, inp, api):
         return imm.feed_token(end).result
     if api == 'scan':
         return [ScanHit(m.range[0], m.range[1], m.value) for m in lk.scan(inp)]
+    if api.startswith('forkat:'):
+        # feed k tokens, fork (copy() / copy.copy / as_immutable), let the FORK lex and parse the rest, then the original
+        _, k, mode = api.split(':')
+        ip = lk.parse_interactive(inp)
+        stream = ip.lexer_thread.lex(ip.parser_state)
+        last = None
+        for _ in range(int(k)):
+            t = next(stream, None)
+            if t is None:
+                break
+            ip.feed_token(t)
+            last = t
+        if mode == 'copy':
+            fork = ip.copy()
+        elif mode == 'shallow':
+            fork = copy.copy(ip)
+        else:
+            fork = ip.as_immutable()
+        if mode == 'immutable':
+            done = fork.exhaust_lexer()
+            toks = []       # the immutable route does not hand the tokens out: borrow from the fork's lexer state
+            lt = done.lexer_thread.state.last_token
+            r_fork = done.feed_eof(lt if lt is not None else last).result
+        else:
+            toks = fork.exhaust_lexer()
+            r_fork = fork.feed_eof(toks[-1] if toks else last)
+        toks = ip.exhaust_lexer()
+        r_orig = ip.feed_eof(toks[-1] if toks else last)
+        return [r_fork, r_orig]
+    if api == 'on_error':
+        from lark.exceptions import UnexpectedCharacters
+        return lk.parse(inp, on_error=lambda e: isinstance(e, UnexpectedCharacters))
     res = lk.parse(inp)
     if api == 'deepcopy':
         return copy.deepcopy(res)
@@ -365,6 +562,7 @@ def run_case(grammar, parser, lexer, text, rep='str', window=None, api='parse', 
         return dict(kind='unsupported', why=type(lk).__name__)
     inp, buf, a = make_input(text, rep, window)
     tr = Tracer()
+    tr.recover = api == 'on_error'
     out = dict(buf=buf, a=a, b=a + len(text), tracer=tr, dynamic=lexer in DYNAMIC)
     with tr.active():
         try:
@@ -424,17 +622,18 @@ def meta_violations(out):
     bad = []
     seen = set()
     from lark import Tree
-    if out['kind'] != 'ok' or not isinstance(out['result'], Tree):
-        return bad
-    for node in out['result'].iter_subtrees():
+    roots = []
+    if out['kind'] == 'ok':
+        roots = [r for r in (out['result'] if isinstance(out['result'], list) else [out['result']]) if isinstance(r, Tree)]
+    if any(c['custom'] for c in tr.pp_calls):
+        return bad          # __lark_meta__ children: what they offer is the user's business (model-vs-code only)
+    for node in [n for r in roots for n in r.iter_subtrees()]:
         if id(node) in seen or id(node) not in tr.own:
             continue
         seen.add(id(node))
         # the rule application that created the node; a tree created empty (its rule matched no token) and then
         # handed through by inlined ?rules takes the span of the first enclosing rule that matched a token
         call = tr.pp_calls[tr.firstpos.get(id(node), tr.own[id(node)])]
-        if call['filtered']:
-            continue
         true = call['true']
         m = meta_fields(node.meta)
         if true is None:
@@ -523,6 +722,72 @@ def coq_lex_case(run, tr):
         L([S(x) for x in sorted(run.nlt)]), table, toks, Z(run.code), Z(run.err[0] or 0), Z(run.err[1] or 0), Z(run.err[2] or 0))
 
 
+def coq_copy_case(rec):
+    ops = []
+    for o in rec['ops']:
+        if o[0] == 'feed':
+            ops.append('OpFeed %s %s %s' % (T(o[1]), 'true' if o[2] else 'false', coq_obs(o[3])))
+        else:
+            ops.append('OpAdvance %s %s' % (Z(o[1]), coq_obs(o[2])))
+    return 'CopyCase %s %s %s %s' % (T(as_text(rec['buf'])), coq_obs(rec['orig']), coq_obs(rec['copied']), L(ops))
+
+
+def coq_fork_case(run, rec):
+    """the token stream a forked lexer state produced, from the state of the ORIGINAL counter at the copy"""
+    sl = run.slice
+    table = L(['Entry %s %s %s' % (Z(p), N(n), S(ty)) for p, n, ty in run.matches])
+    toks = L([coq_tokobs((pre,) + f[1:]) for pre, f in run.tokens])
+    return 'ForkCase %s %s %s %s %s %s %s %s %s %s %s' % (
+        T(as_text(sl.text)), Z(sl.end), coq_obs(rec['orig']), L([S(x) for x in run.ignore]),
+        L([S(x) for x in sorted(run.nlt)]), table, toks, Z(run.code), Z(run.err[0] or 0), Z(run.err[1] or 0), Z(run.err[2] or 0))
+
+
+def coq_rec_case(run, tr):
+    """on_error route: tokens and accepted UnexpectedCharacters errors of one lexer state, in order"""
+    rec = tr.counters.get(id(run.ctr))
+    if rec is None:
+        return None
+    sl = run.slice
+    table = L(['Entry %s %s %s' % (Z(p), N(n), S(ty)) for p, n, ty in run.matches])
+    evs = []
+    for ev in run.events:
+        if ev[0] == 'tok':
+            evs.append('ObsTok (%s)' % coq_tokobs((ev[1],) + ev[2][1:]))
+        else:
+            evs.append('ObsErr %s %s %s' % (Z(ev[1]), Z(ev[2]), Z(ev[3])))
+    return 'RecCase %s %s %s %s %s %s %s %s %s' % (
+        T(as_text(sl.text)), Z(rec['start']), Z(sl.end), coq_snap(rec['snap']), L([S(x) for x in run.ignore]),
+        L([S(x) for x in sorted(run.nlt)]), table, L(evs), 'true' if run.code == 0 else 'false')
+
+
+def coq_oz(v):
+    return 'NoZ' if v is None else '(Some %s)' % Z(v)
+
+
+def coq_rmeta(m):
+    return '(RM %s %s)' % ('true' if m[0] else 'false', ' '.join(coq_oz(v) for v in m[1:]))
+
+
+def coq_pp_case(r):
+    """None when the call is outside the raw model's reading (a Token child whose position attributes are None:
+    Python's getattr then yields None values, not AttributeError)"""
+    kids = []
+    for (kind, m), keep in zip(r['kids'], r['keep']):
+        if kind == 'tok':
+            if any(v is None for v in m[1:7]):
+                return None
+            c = 'RTok %s' % coq_rmeta(m)
+        elif kind == 'tree':
+            c = 'RTree %s' % coq_rmeta(m)
+        elif kind == 'custom':
+            c = 'RCustom %s' % ('None' if m is None else '(Some %s)' % coq_rmeta(m))
+        else:
+            c = 'ROther'
+        kids.append('(%s, %s)' % (c, 'true' if keep else 'false'))
+    return 'PPCase %s %s %s' % (L(kids), coq_rmeta(r['before']),
+                                'None' if r['after'] is None else '(Some %s)' % coq_rmeta(r['after']))
+
+
 def coq_dyn_case(buf, toks):
     return 'DynCase %s %s %s' % (T(as_text(buf)), 'true' if isinstance(buf, bytes) else 'false',
                                  L([coq_tokobs(tok_fields(t)) for t in toks]))
@@ -542,8 +807,10 @@ def coq_ptree(tr, idx, top=True, obs_tr=None):
     tokens of the substring run, observations of the window run)"""
     call = tr.pp_calls[idx]
     kids = []
-    for kind, v in call['kids']:
-        if kind == 'node':
+    for k, (kind, v) in enumerate(call['kids']):
+        if not call['keep'][k] and call['sel'] != k:
+            kids.append('PNone')        # rejected by the node_filter: skipped like an unpositioned child
+        elif kind == 'node':
             kids.append(coq_ptree(tr, v, False, obs_tr))
         elif kind == 'tok':
             kids.append('PTok %s' % coq_span_tok(v))
@@ -571,10 +838,20 @@ def meta_roots(tr):
     """indices of PropagatePositions calls whose result is not a child of a later recorded call"""
     used = set()
     for c in tr.pp_calls:
-        for kind, v in c['kids']:
-            if kind == 'node':
+        for k, (kind, v) in enumerate(c['kids']):
+            if kind == 'node' and (c['keep'][k] or c['sel'] == k):
                 used.add(v)
-    return [i for i in range(len(tr.pp_calls)) if i not in used]
+    return [i for i in range(len(tr.pp_calls)) if i not in used and ptree_ok(tr, i)]
+
+
+def ptree_ok(tr, idx):
+    """the grouped model (MetaSpan.build) can express this callback tree: no __lark_meta__ children, and the node
+    builder did not return a child the node_filter rejects"""
+    c = tr.pp_calls[idx]
+    if c['custom'] or (c['sel'] is not None and not c['keep'][c['sel']]):
+        return False
+    return all(ptree_ok(tr, v) for k, (kind, v) in enumerate(c['kids'])
+               if kind == 'node' and (c['keep'][k] or c['sel'] == k))
 
 
 # ============================================================================================ generators
@@ -764,12 +1041,42 @@ def enough(ctx, n=12):
 
 class Collector:
     """runs lark under the tracer, applies the property oracle, accumulates the Coq correspondence cases"""
+    KINDS = (('trace', 'check_trace', 'Gen/LineCounter (from_text_slice, feed, advance_to) vs the recorded LineCounter calls'),
+             ('lex', 'check_lex', 'Pos/LexCoords.lex_slice vs the token stream of BasicLexer.next_token'),
+             ('dyn', 'check_dyn', 'Pos/LexCoords.dyn_token vs the tokens of the dynamic Earley scanner'),
+             ('meta', 'check_ptree', 'Pos/MetaSpan.build vs the metas written by PropagatePositions'),
+             ('copy', 'check_copy', 'Gen/CounterCopy.lc_copy vs copy(line_ctr) in LexerState.__copy__ and the calls on the copy'),
+             ('fork', 'check_fork', 'Pos/Recover.lex_fork vs the token stream of a forked lexer state'),
+             ('rec', 'check_rec', 'Pos/Recover.lex_slice_rec vs tokens and skipped characters of parse(on_error=...)'),
+             ('pp', 'check_pp', 'Pos/PropPosModel.rpropagate (regenerated PropagatePositions, attribute-wise) vs each callback'),
+             ('slice', 'check_slice', 'Gen/TextSlice.ts_start/ts_end/ts_complete/ts_len vs TextSlice(buf, start, end)'))
+
     def __init__(self, ctx, prefix, oracle, witness, run_witness):
         self.ctx = ctx
         self.prefix, self.oracle, self.witness, self.run_witness = prefix, oracle, witness, run_witness
-        self.traces, self.lexes, self.dyns, self.metas = [], [], [], []   # (coq term, witness)
+        self.cases = {k: [] for k, _, _ in self.KINDS}       # kind -> [(coq term, witness)]
+        self.pp_seen = set()
+        self.pp_budget = 300
+        self.pp_all_budget = 450
 
-    def run(self, stream, g, parser, lexer, text, rep='str', window=None, api='parse', extra=(), key=None):
+    # kept for C15's direct use
+    @property
+    def traces(self):
+        return self.cases['trace']
+
+    @property
+    def lexes(self):
+        return self.cases['lex']
+
+    @property
+    def dyns(self):
+        return self.cases['dyn']
+
+    @property
+    def metas(self):
+        return self.cases['meta']
+
+    def run(self, stream, g, parser, lexer, text, rep='str', window=None, api='parse', extra=(), key=None, all_pp=False):
         ctx = self.ctx
         w = self.witness(g, parser, lexer, text, rep, window, api, extra)
         out = run_case(g, parser, lexer, text, rep, window, api, extra)
@@ -779,50 +1086,77 @@ class Collector:
         toks = result_tokens(out)
         nontriv = len(toks) >= 2 and any((t.line or 0) >= 2 for t in toks)
         outcome = 'ok' if out['kind'] == 'ok' else out['sig'][0]
-        if out['kind'] == 'error' and not outcome.startswith('Unexpected'):
+        if out['kind'] == 'error' and not outcome.startswith('Unexpected') and stream != 'custom-meta':
             note = 'unexpected exception class %s in stream %s (api %s)' % (outcome, stream, api)
             if note not in ctx.notes:
                 ctx.note(note)
-        ctx.count(stream, key=(g, parser, lexer, text, rep, window, api), nontrivial=nontriv,
+        ctx.count(stream, key=(g, parser, lexer, text, rep, window, api, extra), nontrivial=nontriv,
                   config='%s/%s/%s%s' % (parser, lexer, rep, '/window' if window else ''), outcome=outcome,
-                  tokens=min(len(toks), 12), api=api)
+                  tokens=min(len(toks), 12), api=api.split(':')[0] + (':' + api.split(':')[2] if api.count(':') == 2 else ''))
         if nontriv:
             ctx.sample({'grammar': g, 'config': [parser, lexer, rep, api], 'window': window, 'text': text,
                         'tokens': [tok_fields(t) for t in toks[:8]]}, limit=4)
         for stage, msg in self.oracle(out)[:3]:
             ctx.violation(stage, w, True, msg, key=key)
+        self.add(out, w, all_pp)
+        return out
+
+    def add(self, out, w, all_pp=False):
         tr = out['tracer']
+        cs = self.cases
         for rec in tr.counters.values():
             if not rec.get('foreign'):
-                self.traces.append((coq_trace(rec), w))
+                cs['trace'].append((coq_trace(rec), w))
+        for rec in tr.copies.values():
+            cs['copy'].append((coq_copy_case(dict(rec, ops=rec['ops'][:4])), w))
         for run in tr.runs.values():
+            if tr.recover:
+                c = coq_rec_case(run, tr)
+                if c:
+                    cs['rec'].append((c, w))
+                continue
+            rec = tr.copies.get(id(run.ctr))
+            if rec is not None:
+                cs['fork'].append((coq_fork_case(run, rec), w))
+                continue
             c = coq_lex_case(run, tr)
             if c:
-                self.lexes.append((c, w))
+                cs['lex'].append((c, w))
+        toks = result_tokens(out)
         if out['dynamic'] and toks:
-            self.dyns.append((coq_dyn_case(out['buf'], toks), w))
+            cs['dyn'].append((coq_dyn_case(out['buf'], toks), w))
         for r in meta_roots(tr):
-            if not tr.pp_calls[r]['filtered']:
-                self.metas.append((coq_ptree(tr, r), w))
-        return out
+            cs['meta'].append((coq_ptree(tr, r), w))
+        for r in tr.pp_raw:
+            c = coq_pp_case(r)
+            if c is None or c in self.pp_seen:
+                continue
+            if all_pp:
+                if self.pp_all_budget <= 0:
+                    continue
+                self.pp_all_budget -= 1
+            else:
+                if self.pp_budget <= 0:
+                    continue
+                self.pp_budget -= 1
+            self.pp_seen.add(c)
+            cs['pp'].append((c, w))
 
     def check(self):
         ctx = self.ctx
-        for name, fn, cases, what in (
-                (self.prefix + '_trace', 'check_trace', self.traces, 'Gen/LineCounter (from_text_slice, feed, advance_to) vs the recorded LineCounter calls'),
-                (self.prefix + '_lex', 'check_lex', self.lexes, 'Pos/LexCoords.lex_slice vs the token stream of BasicLexer.next_token'),
-                (self.prefix + '_dyn', 'check_dyn', self.dyns, 'Pos/LexCoords.dyn_token vs the tokens of the dynamic Earley scanner'),
-                (self.prefix + '_meta', 'check_ptree', self.metas, 'Pos/MetaSpan.build vs the metas written by PropagatePositions')):
+        jobs = []
+        for kind, fn, what in self.KINDS:
             seen, uniq = set(), []
-            for c, w in cases:           # identical observations (e.g. the same text under two parsers) are checked once
+            for c, w in self.cases[kind]:      # identical observations (e.g. the same text under two parsers) are checked once
                 if c not in seen:
                     seen.add(c)
                     uniq.append((c, w))
-            cases = uniq
-            if not cases:
-                continue
-            bad, errs = ctx.coq_bad_indices(name, IMPORTS, fn, [c for c, _ in cases], chunk=400)
-            ctx.extra.setdefault('coq_case_kinds', {})[fn] = len(cases)
+            if uniq:
+                jobs.append((kind, fn, what, uniq))
+                ctx.extra.setdefault('coq_case_kinds', {})[fn] = len(uniq)
+        results = coq_multi(ctx, [('%s_%s' % (self.prefix, kind), IMPORTS, fn, [c for c, _ in uniq])
+                                  for kind, fn, what, uniq in jobs])
+        for (kind, fn, what, cases), (bad, errs) in zip(jobs, results):
             for e in errs:
                 ctx.violation('correspondence:coq-eval', {'error': e}, False, e[:300])
             for i in bad[:5]:
@@ -836,6 +1170,63 @@ class Collector:
                                   False, 'model and implementation disagree; the property oracle holds on this case')
 
 
+def coq_multi(ctx, jobs):
+    """[(name, imports, check_fn, [coq terms])] -> [(bad indices, errors)]: like ctx.coq_bad_indices for several case
+    kinds at once.  Starting coqc and loading the libraries costs more than evaluating a few hundred cases, so the
+    cases of all kinds are packed into VERIF_NCPU files of about equal size, each evaluated by one coqc process."""
+    import re
+    import lib
+    from concurrent.futures import ThreadPoolExecutor
+    out = [([], []) for _ in jobs]
+    total = sum(len(c) + 2 for _, _, _, cases in jobs for c in cases)
+    if not total:
+        return out
+    nbins = max(1, min(lib.NCPU, total // 20000 + 1))
+    limit = total // nbins + 1
+    parts = []          # (job index, first case index, cases)
+    for j, (name, imports, fn, cases) in enumerate(jobs):
+        k0, size = 0, 0
+        for k, c in enumerate(cases):
+            size += len(c) + 2
+            if size >= limit:
+                parts.append((j, k0, cases[k0:k + 1]))
+                k0, size = k + 1, 0
+        if k0 < len(cases):
+            parts.append((j, k0, cases[k0:]))
+    parts.sort(key=lambda p: -sum(len(c) for c in p[2]))
+    bins = [[] for _ in range(nbins)]
+    load = [0] * nbins
+    for p in parts:
+        b = load.index(min(load))
+        bins[b].append(p)
+        load[b] += sum(len(c) for c in p[2])
+    imports = '\n'.join(dict.fromkeys(imp for _, imp, _, _ in jobs))
+
+    def text_of(b):
+        txt = ('%s\nFrom Coq Require Import List String Ascii ZArith NArith Bool.\nImport ListNotations.\n'
+               'Open Scope string_scope.\n'
+               'Fixpoint lv_bad {A} (f : A -> bool) (i : nat) (l : list A) : list nat :=\n'
+               '  match l with [] => [] | x :: r => if f x then lv_bad f (S i) r else i :: lv_bad f (S i) r end.\n') % imports
+        for j, k0, cases in b:
+            txt += ('Definition lv_cases_%d_%d := %s.\n'
+                    'Definition lv_result_%d_%d := Eval vm_compute in lv_bad (%s) 0%%nat lv_cases_%d_%d.\n'
+                    'Print lv_result_%d_%d.\n' % (j, k0, '[\n' + ';\n'.join(cases) + '\n]', j, k0, jobs[j][2], j, k0, j, k0))
+        return txt
+    prefix = jobs[0][0].split('_')[0]
+    with ThreadPoolExecutor(max_workers=nbins) as ex:
+        results = list(ex.map(lambda ib: ctx.coq_run('%s_pack_%d' % (prefix, ib[0]), text_of(ib[1])), enumerate(bins)))
+    for b, (rc, text) in zip(bins, results):
+        flat = ' '.join(text.split())
+        for j, k0, cases in b:
+            m = re.search(r'lv_result_%d_%d = (\[[^\]]*\])' % (j, k0), flat)
+            if not m:
+                out[j][1].append('%s from case %d rc=%d: %s' % (jobs[j][0], k0, rc, text[-800:]))
+                continue
+            out[j][0].extend(k0 + int(n) for n in re.findall(r'\d+', m.group(1)))
+    for j, (name, imports_, fn, cases) in enumerate(jobs):
+        ctx.coq_cases_checked += len(cases)
+        out[j][0].sort()
+    return out
 
 
 # ============================================================================================ boundary family
@@ -854,3 +1245,58 @@ BOUNDARY = [
      ['[]', '{[]}', '[]a', 'a[]', '{{a}}', '{[]}{a}', '(a)', '{(a)}[]', '[\n]', '{a}']),
 ]
 BOUNDARY_WINDOWS = [None, ('', ''), ('', ' z'), ('x\n', ''), ('ab', '\n\n'), ('\n(', ')')]
+
+
+# ============================================================================================ round-12 families
+# Forks: the lexer state is copied mid-stream and the COPY lexes the rest.  Systematic: for every text the fork
+# points are 0, 1, the end, and every token index whose next token lies on a line >= 2 away from the line start
+# (where a counter copy that loses line_start_pos, or any other field, shows).
+FORK_GRAMMARS = [
+    ('start: stmt+\nstmt: NAME "=" NUMBER ";"\nNAME: /[a-z]+/\nNUMBER: /[0-9]+/\n%ignore /[ \\t\\n]+/\n',
+     ['a = 1;\nbb = 22; ccc = 333; dd = 4;\n  e = 55;\nf = 6; g = 7;', '\n\n x = 1; y = 2;\n z = 3;', 'a = 1; b = 2;',
+      'q = 9;\n\n\n   r = 10; s = 11;']),
+    ('start: (NAME | STR | group)*\ngroup: "(" start ")"\nNAME: /[a-z]+/\nSTR: /"[^"]*"/\n%ignore /[ ]+/\nNL: /\\n/\n%ignore NL\n',
+     ['a "x\ny" (b c\n d) e', '"\n\n" a (("\n" b) c) d', '(a\n(b\n(c d) e) f) g']),
+]
+FORK_MODES = ('copy', 'shallow', 'immutable')
+
+
+def fork_points(lk, inp, buf):
+    """token indices at which to fork: 0, 1, n and every k whose k-th token starts mid-line on a line >= 2"""
+    try:
+        toks = list(lk.lex(inp))
+    except Exception:       # noqa
+        return [0, 1]
+    ks = {0, 1, len(toks)}
+    mid = [k for k, t in enumerate(toks) if (t.line or 1) >= 2 and (t.column or 1) > 1]
+    # on every line >= 2: the first and the last token that does not start the line
+    by_line = {}
+    for k in mid:
+        by_line.setdefault(toks[k].line, []).append(k)
+    for l in by_line.values():
+        ks.update((l[0], l[-1]))
+    return sorted(ks)
+
+
+# on_error recovery: grammars that have no terminal for a newline outside comments / at all, inputs with stray
+# unlexable characters - newlines among them - between valid tokens
+RECOVER_GRAMMARS = [
+    ('start: item+\nitem: NAME ":" NUMBER\nNAME: /[a-z]+/\nNUMBER: /[0-9]+/\nCOMMENT: /#[^\\n]*\\n/\n%ignore /[ \\t]+/\n%ignore COMMENT\n',
+     [['a', ':', '1'], ['bb', ':', '22'], ['ccc', ':', '333'], ['#c\n'], ['d', ':', '4']]),
+    ('start: (WORD | "(" start ")" | ";")*\nWORD: /[a-z]+/\n%ignore " "\n',
+     [['a'], ['(', 'b', 'c', ')'], [';'], ['(', '(', 'd', ')', ')'], ['ef']]),
+]
+RECOVER_JUNK = ['\n', '\n', '$', '\n\n', '$\n', '\n$', '\n \n', '?']
+RECOVER_FIXED = ['a:1 bb:22\nccc:333 d:4\n\n  e:55 # trailing comment\nf:6 g:7\nh:8', '\na:1', 'a:1\n', 'a:1\n\n\nb:2 $ c:3\n d:4']
+
+
+def gen_recover_input(rng, groups):
+    out = ''
+    for _ in range(rng.randint(2, 6)):
+        g = rng.choice(groups)
+        out += rng.choice(['', ' ', '  ']).join(g) if len(g) > 1 else g[0]
+        r = rng.random()
+        out += rng.choice(RECOVER_JUNK) if r < 0.6 else ' '
+        if rng.random() < 0.3:
+            out += ' '
+    return out
